@@ -90,3 +90,31 @@ package arena
 //@   prop C08
 //@   pure
 //@   ensures result == (cp == nil || mathint(addr.idx) > cp.blocks - 1 || (mathint(addr.idx) == cp.blocks - 1 && mathint(addr.off) > cp.offsetInBlock))
+
+// ---- the value-log entry header: what store writes, load reads back (the undo walk depends on this round trip) ---------------
+// le32(b, at): the little-endian 32-bit number in b[at..at+3].
+//@ spec func le32(b []byte, at int) int { return mathint(b[at]) + 256 * mathint(b[at+1]) + 65536 * mathint(b[at+2]) + 16777216 * mathint(b[at+3]) }
+//@ func (MemdbArenaAddr) store
+//@   prop C08
+//@   may-panic
+//@   requires len(dst) >= 8
+//@   modifies elems(byte)
+//@   ensures written: le32(dst, 0) == mathint(addr.idx) && le32(dst, 4) == mathint(addr.off)
+//@ func (*MemdbArenaAddr) load
+//@   prop C08
+//@   may-panic
+//@   requires len(src) >= 8
+//@   ensures read: mathint(addr.idx) == le32(src, 0) && mathint(addr.off) == le32(src, 4)
+//@ func (*MemdbVlogHdr) store
+//@   prop C08
+//@   may-panic
+//@   inline-callee store
+//@   requires len(dst) >= 20
+//@   modifies elems(byte)
+//@   ensures written: le32(dst, 0) == mathint(hdr.ValueLen) && le32(dst, 4) == mathint(hdr.OldValue.idx) && le32(dst, 8) == mathint(hdr.OldValue.off) && le32(dst, 12) == mathint(hdr.NodeAddr.idx) && le32(dst, 16) == mathint(hdr.NodeAddr.off)
+//@ func (*MemdbVlogHdr) load
+//@   prop C08
+//@   may-panic
+//@   inline-callee load
+//@   requires len(src) >= 20
+//@   ensures read: mathint(hdr.ValueLen) == le32(src, 0) && mathint(hdr.OldValue.idx) == le32(src, 4) && mathint(hdr.OldValue.off) == le32(src, 8) && mathint(hdr.NodeAddr.idx) == le32(src, 12) && mathint(hdr.NodeAddr.off) == le32(src, 16)
